@@ -65,6 +65,8 @@ type c02Case struct {
 	Twin    string `json:"twin,omitempty"`          // "", "before", "after": a same-shape route with other variable names under POST
 	Head    bool   `json:"head_requests,omitempty"` // the history is requested with HEAD (served by the GET route)
 	Redisp  bool   `json:"redispatch,omitempty"`    // the route's handler re-dispatches (HandleContext) to a static and to another dynamic route
+	Enc     bool   `json:"use_encoded_path,omitempty"` // the router matches the ESCAPED request path (UseEncodedPath): the handlers see the escaped substrings
+	Mut     bool   `json:"handler_edits_params,omitempty"` // the route's handler edits the Params map it was given, after reading it
 	Dump    bool   `json:"dump_routes,omitempty"`   // the router's read-only inspection API (String, Routes, IterateRoutes, NamedRoutes) is called between registration and the requests and again between them
 }
 
@@ -187,6 +189,18 @@ func c02Gen(tier string, emit func(c02Case)) {
 				emit(c02Case{Pattern: pat, Cache: cc, First: paths[i], Head: true})
 			}
 		}
+		// UseEncodedPath: what is matched (and captured) is the escaped form of the request path
+		for _, cc := range []int{0, 2} {
+			for i := 0; i < len(paths); i += stride * 4 {
+				emit(c02Case{Pattern: pat, Cache: cc, First: paths[i], Enc: true})
+			}
+		}
+		// a handler that edits the parameter map it was handed (every request must still get its own, correct values)
+		for _, cc := range []int{0, 1} {
+			for i := 0; i < len(paths); i += stride * 4 {
+				emit(c02Case{Pattern: pat, Cache: cc, First: paths[i], Mut: true})
+			}
+		}
 		// the read-only inspection API of the router is used before and between the requests
 		for _, cc := range []int{0, 2} {
 			for i := 0; i < len(paths); i += stride * 4 {
@@ -241,6 +255,9 @@ func c02Run(c c02Case, st *fw.Stats) []fw.Viol {
 	if c.Strict {
 		opts = append(opts, rux.StrictLastSlash)
 	}
+	if c.Enc {
+		opts = append(opts, rux.UseEncodedPath)
+	}
 	defs := []refmodel.RouteDef{{Path: c.Pattern, Methods: []string{"GET"}}}
 	mainIdx := "0|"
 	switch c.Twin {
@@ -255,7 +272,7 @@ func c02Run(c c02Case, st *fw.Stats) []fw.Viol {
 		paths = c02Paths(c.Pattern)
 	}
 	where := func(seq []string, i int) string {
-		return fmt.Sprintf("routes [%s], cache=%d, strict=%v, head=%v, routes-dumped=%v, request #%d of history %q", defsString(defs), c.Cache, c.Strict, c.Head, c.Dump, i+1, seq)
+		return fmt.Sprintf("routes [%s], cache=%d, strict=%v, head=%v, routes-dumped=%v, useEncodedPath=%v, handler-edits-its-params=%v, request #%d of history %q", defsString(defs), c.Cache, c.Strict, c.Head, c.Dump, c.Enc, c.Mut, i+1, seq)
 	}
 	for _, q := range paths {
 		rec := &hitRec{}
@@ -270,6 +287,21 @@ func c02Run(c c02Case, st *fw.Stats) []fw.Viol {
 		if tw := c02Twin(c.Pattern); tw != c.Pattern && c.Cache > 0 && c.Twin == "" && !c.Head && !c.Dump {
 			sib, _ = buildRouter([]refmodel.RouteDef{{Path: tw, Methods: []string{"GET", "HEAD"}}}, nil, opts...)
 		}
+		if c.Mut {
+			// the same route with a handler that, after reporting what it saw, overwrites and extends its Params
+			r = rux.New(opts...)
+			r.GET(c.Pattern, func(ctx *rux.Context) {
+				rec.idx, rec.params = 0, canonParams(ctx.Params)
+				rec.n++
+				ctx.WriteString("0|" + canonParams(ctx.Params))
+				for k := range ctx.Params {
+					ctx.Params[k] = "EDITED"
+				}
+				if ctx.Params != nil {
+					ctx.Params["added"] = "x"
+				}
+			}).Opts = map[string]any{"i": 0}
+		}
 		seq := []string{c.First, q, c.First, q}
 		for i, p := range seq {
 			if c.Dump && i%2 == 0 {
@@ -279,6 +311,10 @@ func c02Run(c c02Case, st *fw.Stats) []fw.Viol {
 				_, _ = serve(sib, "GET", p)
 			}
 			st.Evals++
+			if c.Enc {
+				// the path the router looks at is the escaped one
+				p = mustURL(p).EscapedPath()
+			}
 			np := refmodel.Norm(p, c.Strict)
 			want := pt.Matches(np)
 			if want && !pt.Static {
@@ -290,6 +326,11 @@ func c02Run(c c02Case, st *fw.Stats) []fw.Viol {
 			method := "GET"
 			if c.Head && i >= 1 {
 				method = "HEAD"
+			}
+			if c.Mut {
+				// the editing handler runs BEFORE the lookup below as well (whatever the first lookup of a path leaves
+				// behind must not show in the next one)
+				_, _ = serve(r, method, p)
 			}
 			if pv := try(func() { rt, ps, _ = r.Match(method, p) }); pv != nil {
 				add("match:panic", fmt.Sprintf("%s: Match panicked: %v", where(seq, i), pv))
@@ -306,7 +347,11 @@ func c02Run(c c02Case, st *fw.Stats) []fw.Viol {
 			}
 			if useServe {
 				rec.n = 0
-				resp, pv := serve(r, method, p)
+				sp := p
+				if c.Enc {
+					sp = seq[i] // served with the decoded path in URL.Path; the router escapes it itself
+				}
+				resp, pv := serve(r, method, sp)
 				if pv != nil {
 					add("serve:panic", fmt.Sprintf("%s: ServeHTTP panicked: %v", where(seq, i), pv))
 					break
@@ -397,9 +442,9 @@ func c02Redispatch(c c02Case, st *fw.Stats, add func(sig, msg string), viols *[]
 var c02Spec = fw.Spec[c02Case]{
 	ID:    "C02",
 	Level: "model_checking",
-	Rule: "complete product per pattern (22 patterns; a sibling router built from the same option values and holding the pattern with other variable names is served every request first): every ordered pair (p,q) of candidate paths (all value tuples over 12 values substituted at every optional depth, plus perturbations) requested as the history p,q,p,q on routers with cache off / capacity 1 / capacity 2, via Match and ServeHTTP; " +
+	Rule: "complete product per pattern (22 patterns; a sibling router built from the same option values and holding the pattern with other variable names is served every request first): every ordered pair (p,q) of candidate paths (all value tuples over 12 values substituted at every optional depth, plus perturbations) requested as the history p,q,p,q on routers with cache off / capacity 1 / capacity 2, via Match and ServeHTTP (also with UseEncodedPath, where the escaped path is what is matched and captured, and with a handler that edits the Params it was given); " +
 		"oracle = back-tracking reference matcher (all decompositions); plus every matching path re-dispatched by its handler (HandleContext) to a static, a dynamic and an optional route, whose handlers must see exactly their own parameters; non-trivial = a request whose path matches the dynamic pattern",
-	Assume: []string{"values and patterns are drawn from the stated alphabets", "handlers treat Params as read-only"},
+	Assume: []string{"values and patterns are drawn from the stated alphabets", "handlers treat Params as read-only, except in the cases marked handler_edits_params (where the edit must stay private to that request)"},
 	Bounds: func(tier string) map[string]any {
 		n := 0
 		for _, p := range c02Pool {
